@@ -14,11 +14,6 @@ def Agrees (e : Val) : Prop :=
   ∀ (c : Ctx) (root : Val) (env : Env), EnvRel c root env → rExpr root env e = [] →
     okReasons (sEval root env e) = [] → eval c e = sEval root env e
 
-theorem okReasons_nil {α} (r : R α) (h : okReasons r = []) : ∃ v, r = .ok v := by
-  cases r with
-  | ok v => exact ⟨v, rfl⟩
-  | error e => cases e <;> simp [okReasons] at h
-
 theorem rList_nil (root : Val) (env : Env) (xs : List Val) (h : rList root env xs = []) :
     ∀ x ∈ xs, okReasons (sEval root env x) = [] ∧ rExpr root env x = [] := by
   induction xs with
@@ -190,7 +185,8 @@ theorem fields_agree (c : Ctx) (root : Val) (env : Env) (hr : EnvRel c root env)
         (fun a b hab => hacc a b (by simp [hab]))
       refine ⟨gs, ?_, ?_, ?_⟩
       · simp [sFields, hx, g1, bind, Except.bind, pure, Except.pure]
-      · simp [evalDoc, hcl, he, hx, hr.hign, g2, bind, Except.bind]
+      · rw [evalDoc_plain c k v r acc hcl, he, hx]
+        simp [Except.bind, hr.hign, g2]
       · intro a ha
         have := g3 a ha
         by_cases hak : k = a
@@ -210,7 +206,8 @@ theorem fields_agree (c : Ctx) (root : Val) (env : Env) (hr : EnvRel c root env)
           simp [dhas, dget, hne])
       refine ⟨(k, y) :: gs, ?_, ?_, ?_⟩
       · simp [sFields, hx, g1, bind, Except.bind, pure, Except.pure]
-      · simp [evalDoc, hcl, he, hx, dset_append k y acc hk_acc, g2, bind, Except.bind]
+      · rw [evalDoc_plain c k v r acc hcl, he, hx]
+        simp [Except.bind, dset_append k y acc hk_acc, g2]
       · intro a ha
         by_cases hak : k = a
         · simp [dhas, dget, hak]
